@@ -520,9 +520,12 @@ def m4(prog: Program, chk: Check) -> None:
             lc = comps[0]
             g0 = lc.generators[0]
             rets = [r for r in walk_local(u.node) if isinstance(r, ast.Return)]
-            ok = len(lc.generators) == 1 and not g0.ifs and isinstance(g0.target, ast.Name) \
-                and norm(g0.iter) == "process_tensors" \
-                and isinstance(calls[0].func.value, ast.Name) and calls[0].func.value.id == g0.target.id \
+            recv_ = calls[0].func.value
+            by_element = norm(g0.iter) == "process_tensors" and isinstance(recv_, ast.Name) \
+                and isinstance(g0.target, ast.Name) and recv_.id == g0.target.id
+            by_index = norm(g0.iter) in ("range(len(process_tensors))",) and isinstance(g0.target, ast.Name) \
+                and norm(recv_) == f"process_tensors[{g0.target.id}]"
+            ok = len(lc.generators) == 1 and not g0.ifs and (by_element or by_index) \
                 and len(calls[0].args) == 1 and norm(calls[0].args[0]) == "step" \
                 and len(rets) == 1 and rets[0].value is not None \
                 and ast.dump(origin(du, du.node_of(rets[0]), rets[0].value) or rets[0]) == ast.dump(lc)
